@@ -3,21 +3,43 @@
 import glob, json, os
 verif = os.path.dirname(os.path.dirname(os.path.abspath(__file__)))
 rows = []
+n_caught = n_other = n_neutral = n_outside = n_open = 0
 for mf in sorted(glob.glob(os.path.join(verif, "seeded", "*", "meta.json"))):
     m = json.load(open(mf))
     note = (m.get("needs_to_manifest") or "").strip().splitlines()
     first = next((l.strip("# *-").strip() for l in note if l.strip()), "")
-    checks = ", ".join(f"{p}: {v['verdict'].lower()}" for p, v in m.get("checks", {}).items())
-    rows.append(f"| {os.path.basename(os.path.dirname(mf))} | {first[:110]} | {checks} |")
-caught = sum(1 for r in rows if f": caught" in r.split("|")[3].split(",")[0])
-other = sum(1 for r in rows if ": caught" not in r.split("|")[3].split(",")[0] and ": caught" in r.split("|")[3])
-silent = sum(1 for r in rows if ": silent" in r.split("|")[3].split(",")[0])
+    prop = m["property"]
+    own = m.get("checks", {}).get(prop, {}).get("verdict", "?")
+    parts = []
+    for p, v in m.get("checks", {}).items():
+        verdict = v["verdict"].lower()
+        if p == prop and not verdict.startswith("caught"):
+            if m.get("outside_property_note"):
+                verdict = "silent (outside what the property demands, DESIGN section 6)"
+            elif m.get("neutralised_by"):
+                verdict = f"silent (harmless since fix {m['neutralised_by']})"
+            elif m.get("attribution_note"):
+                verdict = "silent (breaks another property by its statement)"
+        parts.append(f"{p}: {verdict}")
+    rows.append(f"| {os.path.basename(os.path.dirname(mf))} | {first[:110]} | {', '.join(parts)} |")
+    others = [p for p, v in m.get("checks", {}).items() if p != prop and v["verdict"] == "CAUGHT"]
+    if own == "CAUGHT":
+        n_caught += 1
+    elif m.get("outside_property_note"):
+        n_outside += 1
+    elif m.get("neutralised_by"):
+        n_neutral += 1
+    elif m.get("attribution_note") and others:
+        n_other += 1
+    else:
+        n_open += 1
 table = "| change | what it is (first line of the agent's note) | result (own property first) |\n|---|---|---|\n" + "\n".join(rows)
-table += (f"\n\n{len(rows)} confirmed changes; {caught} caught by the quick check of their own property, {other} caught by the check of the "
-          f"property they break by its statement (see the note below the round-5 table), {silent} harmless since a repair.\n")
+table += (f"\n\n{len(rows)} confirmed changes; {n_caught} caught by the quick check of their own property, {n_other} caught by the check of the "
+          f"property they break by its statement, {n_outside} outside what the property demands (section 6; the checks have to stay silent), "
+          f"{n_neutral} harmless since a repair, {n_open} open.\n")
 p = os.path.join(verif, "DESIGN.md")
 s = open(p).read()
 a = s.index("<!-- MATRIX:BEGIN -->") + len("<!-- MATRIX:BEGIN -->")
 b = s.index("<!-- MATRIX:END -->")
 open(p, "w").write(s[:a] + "\n" + table + "\n" + s[b:])
-print(len(rows), "rows;", caught, "caught by own check")
+print(len(rows), "rows;", n_caught, "caught by own check;", n_open, "open")
